@@ -123,6 +123,46 @@ func runFirsts(c *sup.Child, idx int) {
 			}
 			r.AddObs("rounds_of_simultaneous_first_submissions", 1)
 			r.AddObs("first_submissions_accepted", nAcc)
+			// the same name submitted by all goroutines at the same moment: one task of that name
+			// exists, so exactly one submission is accepted
+			{
+				gch2 := make(chan struct{})
+				gate.Store(gch2)
+				finished.Store(0)
+				var accDup atomic.Int64
+				start2 := make(chan struct{})
+				var wg2 sync.WaitGroup
+				for i := 0; i < g; i++ {
+					wg2.Add(1)
+					go func() {
+						defer wg2.Done()
+						<-start2
+						if l.runner.Run(l.pip(root, "dup", "fwork\n")) == nil {
+							accDup.Add(1)
+						}
+					}()
+				}
+				close(start2)
+				wg2.Wait()
+				close(gch2)
+				done2 := make(chan error, 1)
+				go func() { done2 <- mgr.Wait() }()
+				select {
+				case <-done2:
+				case <-time.After(30 * time.Second):
+					r.Inconclusive = "firsts: TasksManager.Wait() did not return within the watchdog (same-name round)"
+					return
+				}
+				if n := accDup.Load(); n != 1 {
+					r.Violate("duplicate-name-accepted", fmt.Sprintf("%d goroutines submitted a task named \"dup\" at the same moment: %d submissions were accepted (bodies finished when Wait returned: %d)", g, n, finished.Load()), wit)
+					return
+				}
+				if fin := finished.Load(); fin != 1 {
+					r.Violate("wait-returned-before-accepted-task-finished", fmt.Sprintf("TasksManager.Wait() returned after %d of 1 accepted same-name submissions had finished", fin), wit)
+					return
+				}
+				r.AddObs("rounds_of_simultaneous_same_name_submissions", 1)
+			}
 			func() {
 				defer func() { recover() }()
 				root.Close()
